@@ -63,11 +63,11 @@ Print Assumptions C03_premises_satisfiable.
 
 (* Hence, for the executable instance, nothing semantic is left as a premise. *)
 (* wf_call / wf_sampler_call / wf_table (Eval/ClassicalInst.v): the inputs on which the total functions of the instance
-   use no default (parameter indices and qubits in range, H only on fresh qubits, exact counts, full table). *)
+   use no default (qubits in range, parameter indices within the circuit's own value vector, H only on fresh qubits, exact counts, full table). *)
 Theorem C03_classical_sampler_paths :
-  forall st shots alpha np init circuits pvals,
+  forall st shots alpha init circuits pvals,
     stack_ok csem cpermute st -> shots <> 0%Z -> alpha_ok alpha = true ->
-    wf_call np init circuits pvals = true -> wf_sampler_call shots init circuits pvals = true ->
+    wf_call init circuits pvals = true -> wf_sampler_call shots init circuits pvals = true ->
     (forall ob, eval_operator_sampler ccompose cwid cagg_op (wrap_sampler cwmap st (pointwise csampler1)) shots ob alpha init circuits pvals
                 = Ok (map (objective_op csem ccompose capply cwid cread ccounts_of cagg_op shots ob alpha init) (combine circuits pvals)))
     /\ (forall f n, wf_table n f = true -> Forall (fun c : ccirc => fst c = n) circuits ->
@@ -77,8 +77,8 @@ Proof. exact classical_sampler_paths. Qed.
 Print Assumptions C03_classical_sampler_paths.
 
 Theorem C03_classical_estimator_path :
-  forall st ob np init circuits pvals,
-    stack_ok csem cpermute st -> wf_call np init circuits pvals = true ->
+  forall st ob init circuits pvals,
+    stack_ok csem cpermute st -> wf_call init circuits pvals = true ->
     eval_estimator ccompose (wrap_estimator crelabel false st (pointwise cestimator1)) ob init circuits pvals
     = Ok (map (objective_est csem capply cexpect ob init) (combine circuits pvals)).
 Proof. exact classical_estimator_path. Qed.
@@ -102,11 +102,11 @@ Print Assumptions C03_estimator_layout_refuted.
 Example C03_example_batch_sampler :
   stack_ok csem cpermute ex_stack
   /\ eval_operator_sampler ccompose cwid cagg_op (wrap_sampler cwmap ex_stack (pointwise csampler1)) 64 ex_obs (1 # 2)
-                           (Some ex_init) [ex_bell; ex_flip] [[0%Z]; [3%Z]] = Ok [(-3 # 2)%Q; (3 # 2)%Q]
+                           (Some ex_init) [ex_bell; ex_flip] [[]; [3%Z]] = Ok [(-3 # 2)%Q; (3 # 2)%Q]
   /\ map (objective_op csem ccompose capply cwid cread ccounts_of cagg_op 64 ex_obs (1 # 2) (Some ex_init))
-         (combine [ex_bell; ex_flip] [[0%Z]; [3%Z]]) = [(-3 # 2)%Q; (3 # 2)%Q]
-  /\ wf_call 1 (Some ex_init) [ex_bell; ex_flip] [[0%Z]; [3%Z]] = true
-  /\ wf_sampler_call 64 (Some ex_init) [ex_bell; ex_flip] [[0%Z]; [3%Z]] = true.
+         (combine [ex_bell; ex_flip] [[]; [3%Z]]) = [(-3 # 2)%Q; (3 # 2)%Q]
+  /\ wf_call (Some ex_init) [ex_bell; ex_flip] [[]; [3%Z]] = true
+  /\ wf_sampler_call 64 (Some ex_init) [ex_bell; ex_flip] [[]; [3%Z]] = true.
 Proof. exact example_batch_sampler. Qed.
 Print Assumptions C03_example_batch_sampler.
 
